@@ -178,9 +178,9 @@ func vlIsSomeCallSite(set []*vlScript, p errchain.Position) bool {
 //	        call whose target is the cause of the rejection: a missing name, a failed script,
 //	        or a script already on this chain
 //	root  - what precedes those call sites is the root cause: for a failed script exactly the
-//	        error stored for it; for a missing name / a cycle either nothing more (the
-//	        offending call site itself heads the chain) or one entry that is a use call site
-//	        of the script it names
+//	        error stored for it; for a missing name either nothing more (the offending call
+//	        site itself heads the chain) or one entry that is a use call site of the script it
+//	        names; for a cycle exactly one entry, equal to one of the call sites that follow
 //
 // Any chain of calls that really leads to a cause is accepted, not only the first one in
 // source order.
@@ -200,12 +200,23 @@ func vlCheckChain(set []*vlScript, s int, err error) (isPl, sites, root bool) {
 		}
 		t := c.target
 		switch {
-		case t >= len(set) || onChain[t]: // missing name, or the call closes a cycle
+		case t >= len(set): // missing name: the offending call site itself heads the chain
 			switch i {
 			case 0:
 				return true, true, true
 			case 1:
 				return true, true, vlIsSomeCallSite(set, chain[0])
+			}
+			return true, true, false
+		case onChain[t]: // the call closes a cycle: the root cause is reported first, at one
+			// of the use call sites of the reported chain, and the call sites follow
+			if i != 1 {
+				return true, true, false
+			}
+			for k := 1; k < len(chain); k++ {
+				if chain[k] == chain[0] {
+					return true, true, true
+				}
 			}
 			return true, true, false
 		case !set[t].valid:
